@@ -282,6 +282,11 @@ class C02(RunSpec):
         if idx % 10 == 6:
             # local searches that make no iteration at all (flat region), in both directions
             p.update({"fams": ["plateau", "constant", "plateau"], "leaf": _cycle(["local", "local_maxiter"], idx // 10), "levels": [2, 3], "maximize": bool((idx // 10) % 2)})
+        if idx % 10 == 9:
+            # one objective per level (the documentation's "less accurate model on the upper levels"): a child evaluates its copy of the
+            # sprout seed with *its* level's objective
+            p.update({"shared": False, "stacks": False, "levels": [2, 3, 3], "leaf": _cycle(["sea", "de", "shade", "cma", "sea_cx"], idx // 10), "inner": _cycle(["sea", "de", "shade"], idx // 10),
+                      "per_level_objectives": True})
         if idx % 10 == 1:
             # objectives whose return type is not always a python float: an integer literal on one branch, integer counts, float32
             # scalars (a batch evaluation must not size its buffer from the first value it sees)
@@ -294,6 +299,8 @@ class C02(RunSpec):
 
     def make_case(self, seed, idx, tier):
         d = super().make_case(seed, idx, tier)
+        if idx % 10 == 9 and d.get("kind") == "tree" and not d.get("shared") and len(d["levels"]) >= 2:
+            d["level_shift"] = [0.0, 0.125, -0.25][: len(d["levels"])]
         if idx % 10 == 3 and d.get("kind") == "tree":
             # two trees, one after the other in one process, on *different* objectives with result caching switched on
             # (FunctionProblem(use_cache=True)), same seed / box / engines: a benchmark loop over several functions
@@ -336,6 +343,7 @@ class C02(RunSpec):
             ("C02.runs_on_an_objective_with_mixed_return_types", 3, "runs in which the objective returned values of more than one type"),
             ("C02.objective_returned_a_value_of_type.int", 50, "objective values returned as python int"),
             ("C02.objective_returned_a_value_of_type.float32", 50, "objective values returned as numpy float32"),
+            ("C02.individuals_reevaluated_with_their_own_level_s_objective", 200, "stored individuals of trees with one objective per level, re-evaluated with their own level's objective"),
             ("C02.cached_problem_pairs", 3, "pairs of cached problems with different objectives in one process"),
             ("C02.local_deme_with_3_iterates", 1, "local deme with >=3 recorded iterates"),
             ("C02.generations_with_carried_and_new", 1, "generation with carried-over individuals"),
